@@ -124,7 +124,7 @@ Section StepKeys.
 
   Lemma step_KU s r : KU s -> KU (step origin s r).
   Proof.
-    intros K. destruct r as [pid ppid tid ptid ts | pid tid ts | pid tid name ex ts | pid tid ts | pid tid]; cbn [step].
+    intros K. destruct r as [pid ppid tid ptid ts | pid tid ts | pid tid name ex ts | pid tid ts | pid tid | pid tid]; cbn [step].
     - destruct (get_by_pid s ppid) as [s1 parent] eqn:E1. destruct (get_by_pid_KU _ _ _ _ K E1) as [K1 A1].
       destruct (negb (pid =? ppid)); [apply get_new_process_KU; exact K1|].
       destruct (get_thread_by_tid s1 ppid parent ptid) as [[s2 parent'] pt] eqn:E2.
@@ -159,6 +159,9 @@ Section StepKeys.
       * intros Hin. apply in_keys_aset in Hin. destruct Hin as [Hin|Hin]; [subst; rewrite N.eqb_refl in Et; discriminate | exact (N2 Hin)].
     - destruct (get_by_pid s pid) as [s1 p] eqn:E1. destruct (get_by_pid_KU _ _ _ _ K E1) as [K1 A1].
       destruct (cur_time s =? origin); [exact K1|].
+      destruct (get_thread_by_tid s1 pid p tid) as [[s2 p2] t] eqn:E2. exact (proj1 (get_thread_by_tid_KU _ _ _ _ _ _ _ K1 A1 E2)).
+    - destruct (tid =? 0); [exact K|].
+      destruct (get_by_pid s pid) as [s1 p] eqn:E1. destruct (get_by_pid_KU _ _ _ _ K E1) as [K1 A1].
       destruct (get_thread_by_tid s1 pid p tid) as [[s2 p2] t] eqn:E2. exact (proj1 (get_thread_by_tid_KU _ _ _ _ _ _ _ K1 A1 E2)).
   Qed.
 
